@@ -186,7 +186,7 @@ def planar_cases(draw, tier):
         P = draw(st.lists(st.tuples(st.integers(0, g - 1), st.integers(0, g - 1)), min_size=n, max_size=n, unique=True))
     else:
         dx, dy = draw(st.sampled_from([(1, 0), (0, 1), (1, 1), (2, 1), (1, -1), (3, 2)]))
-        ts = draw(st.lists(st.integers(0, 30), min_size=n, max_size=n, unique=True))
+        ts = draw(st.lists(st.integers(0, max(30, 3 * n)), min_size=n, max_size=n, unique=True))
         P = [(100 + t * dx, 100 + t * dy) for t in ts]
         if mode == 'line+1':
             off = draw(st.tuples(st.integers(0, 200), st.integers(0, 200)))
